@@ -144,8 +144,10 @@ def flip_paired(ctx: Ctx):
     """Along each of the two decision paths a tiny value numbering follows U and V: a product
     `<X-derived> * <sign vector>` is X flipped once more.  The returned pair must be
     (U flipped once, V flipped once)."""
+    from ..inline import with_inlined
+
     res = ctx.res
-    f = ctx.repo.func(S + "svd_flip")
+    f = with_inlined(ctx.repo, ctx.repo.func(S + "svd_flip"))
     if len(f.pos_params) < 2:
         raise AnalysisError("FLIP-PAIRED: svd_flip no longer takes (U, V)")
     pu, pv = f.pos_params[0], f.pos_params[1]
@@ -425,8 +427,10 @@ def deciding_entry(ctx: Ctx):
         (sign 0 annihilates the singular pair in U and V)."""
     from ..common import inline_locals
 
+    from ..inline import with_inlined
+
     res = ctx.res
-    f = ctx.repo.func(S + "svd_flip")
+    f = with_inlined(ctx.repo, ctx.repo.func(S + "svd_flip"))
     cn = _cn
 
     for label, path, fn in _decision_paths(f, "DECIDING-ENTRY"):
